@@ -282,8 +282,11 @@ CLAIMED = {
          "injected at every await) that the transaction-lock token is balanced, that the gateway is only used while this task "
          "holds the token, that every command with a device type is immediately preceded inside the same critical section by "
          "EnableDeviceType of exactly that type, that a whole sequence runs inside one critical section, that every yielded "
-         "command is sent once and in order and that a started sequence is closed.",
-    design_ref="DESIGN.md 6 (C15), 3.9, 7",
+         "command is sent once and in order and that a started sequence is closed - for sequences of ANY length (loop rule on "
+         "run_sequence's loop: one arbitrary step per arbitrary iteration) and, replayable natively, for every sequence of up "
+         "to three yields. The lock model knows that another task may hold the lock while this one does not: a release "
+         "without the token (asyncio.Lock does not check ownership) is an obligation of its own.",
+    design_ref="DESIGN.md 0.1, 0.2, 6 (C15), 3.9, 7",
     technique="contract-based deductive verification: lock as a ghost token, exceptional postconditions on all exits incl. "
               "injected cancellation; z3",
     note=TB + "; NOT decided: 'every caller eventually completes' (liveness) and the all-interleavings claim itself, which "
